@@ -558,6 +558,7 @@ class VerSched(Scheduler):
 
 class C17Spec(c01.C01Spec):
     prop = PROP
+    guide_share = 0
     invariants = INVARIANTS
 
     def draw(self, rng, tier='quick'):
